@@ -1371,7 +1371,8 @@ void gp_str_sort(
     for (size_t i = 0; i < gp_arr_length(*strs); ++i) {
         pairs[i].narrow = (*strs)[i];
         pairs[i].locale = gp_locale(locale_code);
-        pairs[i].wide = gp_arr_new((GPAllocator*)scratch, sizeof pairs[i].wide[0], gp_str_length((*strs)[i]));
+        pairs[i].wide = gp_arr_new((GPAllocator*)scratch, sizeof pairs[i].wide[0],
+            gp_str_length((*strs)[i]) + sizeof""); // + terminator
         if (fold)
             gp_wcs_fold_utf8(&pairs[i].wide, (*strs)[i], gp_str_length((*strs)[i]), locale_code);
         else
